@@ -472,7 +472,7 @@ def run(ctx, scratch):
                 impl_out.append([canon_impl(x) for x in r['ok']])
         met_cases, met_out = metric_cases(ctx, rng, quick), []
         for mc in met_cases:
-            r = impl.call('c08', 'metrics', dict(n=mc['n'], edges=[[u, v, float(w)] for (u, v, w) in mc['edges']],
+            r = impl.call('c08', 'metrics', dict(n=mc['n'], edges=[[u, v, float(w)] for (u, v, w) in mc['edges']], dtype=mc['dtype'],
                                                  D=[[a, b, float(h), s] for (a, b, h, s) in mc['rows']]), timeout=60)
             ctx.traces += 10
             met_out.append(r.get('ok'))
@@ -598,7 +598,11 @@ def metric_cases(ctx, rng, quick):
             E[(1, 0)] = Fraction(1)
         pairs = random_order(rng, n)
         rows = make_dendrogram(n, pairs, rng.choice(['inc', 'tied', 'size', 'randsteps']), rng)
-        cases.append(dict(n=n, kind=kind, weights=wk, edges=sorted((u, v, x) for (u, v), x in E.items()), rows=rows))
+        # storage dtype of the adjacency (the values are exactly representable in every one of them): the metrics symmetrise their
+        # input with directed2undirected, which must keep fractional weights of any floating dtype and must not wrap narrow integers
+        dt = rng.choice({'unit': ['float64', 'bool', 'int64', 'float32', 'int32'], 'int': ['float64', 'int64', 'float32', 'int32', 'uint8'],
+                         'dyadic': ['float64', 'float32', 'float32']}[wk])
+        cases.append(dict(n=n, kind=kind, weights=wk, edges=sorted((u, v, x) for (u, v), x in E.items()), rows=rows, dtype=dt))
     return cases
 
 
@@ -625,7 +629,7 @@ def check_metrics(ctx, cases, outs):
     shown = 0
     for mc, out, mcost, mtsd in zip(cases, outs, vc, vt):
         n, kind = mc['n'], mc['kind']
-        case = dict(n=n, edges=[[u, v, str(w)] for (u, v, w) in mc['edges']],
+        case = dict(n=n, dtype=mc['dtype'], edges=[[u, v, str(w)] for (u, v, w) in mc['edges']],
                     dendrogram=[[a, b, str(h), s] for (a, b, h, s) in mc['rows']])
         ctx.count('metrics:%s_%s' % (kind, mc['weights']), ('metrics', case), nontrivial=n >= 3)
         if out is None:
